@@ -711,3 +711,140 @@ def mismatch(case, ctx):
                   f'at {path} mis-assigned after permuting the target order')
   ctx.note(labels=[mut, cont['t'], 'bytes' if via_bytes else 'state_dict'],
            nontrivial=len(path) >= 1)
+
+
+# ----------------------------------------------------------------------------
+# two restores overlapping in different threads: the path named by a mismatch
+# error belongs to the restore that failed (the harness owns the schedule: a
+# registered user type blocks inside its restore hook)
+import threading as _threading
+
+
+class _Gate:
+  def __init__(self, v):
+    self.v = v
+
+
+_GATE_HOOK = {'fn': None}
+
+
+def _gate_from_sd(g, sd):
+  fn = _GATE_HOOK['fn']
+  if fn is not None:
+    fn()
+  return _Gate(sd['v'])
+
+
+ser.register_serialization_state(_Gate, lambda g: {'v': g.v}, _gate_from_sd,
+                                 override=True)
+
+PKEYS = ['model', 'opt', 'mu', 'layers', 'block', 'a', 'b']
+
+
+def _nest(path, leaf):
+  for k in reversed(path):
+    leaf = {k: leaf}
+  return leaf
+
+
+@clause('mismatch_concurrent',
+        strategy=lambda: st.fixed_dictionaries({
+            'hold': st.lists(st.sampled_from(PKEYS), min_size=1, max_size=4),
+            'fail': st.lists(st.sampled_from(PKEYS), min_size=1, max_size=4),
+            'kind': st.sampled_from(['longer', 'shorter', 'missing_key']),
+            'via_bytes': st.booleans(),
+            'who_fails': st.sampled_from(['main', 'worker'])}),
+        quick=300, thorough=6000, quick_shards=4, thorough_shards=8,
+        shrink=False,
+        rule='restore A (a tree whose leaf at a random path is a registered '
+        'user type that blocks inside its restore hook) is held mid-way in one '
+        'thread while restore B (list of different length / missing key at '
+        'another random path) fails in another thread: B\'s error message is '
+        'exactly the message B gives when nothing else runs, A completes with '
+        'the right value, and a failing restore after both names only its own '
+        'path; non-trivial = both paths have >=2 segments')
+def mismatch_concurrent(case, ctx):
+  hold, fail, kind = case['hold'], case['fail'], case['kind']
+  tree_a = _nest(hold, _Gate(np.arange(3)))
+  saved_leaf = [np.arange(2), np.arange(2) + 1]
+  if kind == 'longer':
+    tgt_leaf = saved_leaf + [np.arange(2)]
+  elif kind == 'shorter':
+    tgt_leaf = saved_leaf[:1]
+  else:
+    saved_leaf, tgt_leaf = {'x': np.arange(2)}, {'x': np.arange(2),
+                                                 'zz': np.arange(2)}
+  saved_b, target_b = _nest(fail, saved_leaf), _nest(fail, tgt_leaf)
+  if case['via_bytes']:
+    state_a, state_b = ser.to_bytes(tree_a), ser.to_bytes(saved_b)
+    restore_a = lambda: ser.from_bytes(tree_a, state_a)
+    restore_b = lambda: ser.from_bytes(target_b, state_b)
+  else:
+    state_a, state_b = ser.to_state_dict(tree_a), ser.to_state_dict(saved_b)
+    restore_a = lambda: ser.from_state_dict(tree_a, state_a)
+    restore_b = lambda: ser.from_state_dict(target_b, state_b)
+  alone = str(expect_raises(ValueError, restore_b, 'failing restore, alone'))
+  require('/'.join(fail) in alone, lambda: f'error does not name the path '
+          f'{"/".join(fail)!r}: {alone[:200]}')
+  entered, release = _threading.Event(), _threading.Event()
+  box = {}
+
+  def hook():
+    entered.set()
+    if not release.wait(20):
+      box['timeout'] = True
+
+  def run(fn, key):
+    try:
+      box[key] = ('ok', fn())
+    except Exception as e:  # noqa
+      box[key] = ('err', e)
+
+  _GATE_HOOK['fn'] = hook
+  try:
+    if case['who_fails'] == 'main':
+      t = _threading.Thread(target=run, args=(restore_a, 'a'), daemon=True)
+      t.start()
+      if not entered.wait(20):
+        raise RuntimeError('harness: holder thread never reached its hook')
+      run(restore_b, 'b')
+      release.set()
+      t.join(20)
+    else:
+      # the main thread is held inside restore A, the worker fails meanwhile
+      done = _threading.Event()
+
+      def worker():
+        entered.wait(20)
+        run(restore_b, 'b')
+        done.set()
+        release.set()
+      t = _threading.Thread(target=worker, daemon=True)
+      t.start()
+      run(restore_a, 'a')
+      t.join(20)
+  finally:
+    _GATE_HOOK['fn'] = None
+    release.set()
+  if box.get('timeout') or 'a' not in box or 'b' not in box:
+    raise RuntimeError('harness: schedule did not complete')
+  kind_b, val_b = box['b']
+  require(kind_b == 'err' and isinstance(val_b, ValueError), lambda: 'the '
+          f'mismatching restore did not raise ValueError: {val_b!r}')
+  require(str(val_b) == alone, lambda: 'a mismatch error raised while '
+          'another thread was in the middle of a restore names a different '
+          f'path:\n  alone:      {alone[-160:]}\n  concurrent: '
+          f'{str(val_b)[-160:]}')
+  kind_a, val_a = box['a']
+  require(kind_a == 'ok', lambda: f'the held restore failed: {val_a!r}')
+  leaf = val_a
+  for k in hold:
+    leaf = leaf[k]
+  require(isinstance(leaf, _Gate) and np.array_equal(leaf.v, np.arange(3)),
+          'the held restore returned a wrong value')
+  again = str(expect_raises(ValueError, restore_b, 'failing restore, after'))
+  require(again == alone, lambda: 'a later failing restore names a different '
+          f'path: {again[-160:]}')
+  ctx.note(labels=[kind, case['who_fails'], 'bytes' if case['via_bytes']
+                   else 'state_dict'],
+           nontrivial=len(hold) >= 2 and len(fail) >= 2)
